@@ -38,14 +38,14 @@ def dispatch (st : DState) (suite op : String) (inp : Json) : DState × Json :=
   | "zk" => (st, Mps.Drv.ZK.handle op inp)
   | "start" => (st, Mps.Drv.Start.handle op inp)
   | "malform" => (st, Mps.Drv.Malform.handle op inp)
-  | "codec" => (st, Mps.Drv.Codec.handle op inp)
+  | "codec" | "cmptree" => (st, Mps.Drv.Codec.handle op inp)
   | "session" => (st, Mps.Drv.Session.handle op inp)
   | "handler" | "handlerconc" => let (h, j) := Mps.Drv.Handler.handle st.handler op inp; ({ st with handler := h }, j)
   | _ => (st, jobj [("error", "unknown suite")])
 
 def statelessSuites : List String :=
   ["zk", "frame", "session", "sig", "nonce", "alg", "algfind", "paillier", "ot", "pool",
-   "start", "malform", "codec",
+   "start", "malform", "codec", "cmptree",
    "sess-keygen", "sess-sign", "sess-refresh", "sess-derive", "sess-tamper", "sess-presign-abort"]
 
 def flush (hout : IO.FS.Stream) (pending : Array (Task String)) : IO Unit := do
